@@ -1,5 +1,5 @@
 """C13  A benchmark case runs iff its full display path passes the filters."""
-from lib.facts import norm, direct_place, const_int, origins, place_fields
+from lib.facts import norm, direct_place, const_int, origins, place_fields, nophi
 from lib import tables
 from .C15 import const_str, str_consts
 
@@ -19,6 +19,36 @@ NOT_DECIDED = ["regular-expression semantics (regex-lite trusted)", "string equa
 TRUSTED = ["regex_lite::Regex::is_match is an unanchored search"]
 
 
+def filter_is_match_rule(ctx, rule, prog, crate):
+    """Filter::is_match: the Regex arm is a regex search, the Exact arm is whole-string equality of the filter text and the
+    candidate path (shared by R13.1 and R14.5)."""
+    # Filter::is_match
+    b = prog.body("config::filter::Filter::is_match", crate)
+    names = tables.variant_names(prog, "config::filter::Filter", crate)
+    if ctx.anchor(rule, "Filter::is_match + ADT", (1 if b else 0) + (1 if names else 0), 2):
+        ctx.saw(b)
+        sws = tables.discr_switches(b)
+        if ctx.check(len(sws) == 1, rule, ["Filter::is_match", "match"], "not a single match on self", b.where(0)):
+            bi, t, _ = sws[0]
+            arms, otherwise = tables.arm_targets(t)
+            tab = {}
+            for nm in names:
+                tgt = arms.get(names.index(nm), otherwise)
+                blocks = tables.exclusive_blocks(b, tgt, [y for y in list(arms.values()) + [otherwise] if y != tgt])
+                tab[nm] = sorted({b.call_at(x).callee for x in blocks if b.call_at(x) is not None})
+            ok_r = any(n.endswith("Regex::is_match") for n in tab.get("Regex", [])) and not any("eq" == n.rsplit("::", 1)[-1] for n in tab.get("Regex", []))
+            ok_e = any(n.rsplit("::", 1)[-1] == "eq" for n in tab.get("Exact", [])) and not any("Regex" in n or n.endswith(("contains", "starts_with", "ends_with", "find")) for n in tab.get("Exact", []))
+            ctx.check(ok_r and ok_e, rule, ["Filter::is_match", "regex-search-vs-equality"], "Filter::is_match arms call %s" % tab, b.where(bi), detail=tab)
+            # both sides of == are the filter text and the candidate path
+            for c in b.live_calls():
+                if c.callee.rsplit("::", 1)[-1] == "eq":
+                    s0 = {z.label() for z in b.prov.op_src(c.args[0]) if z.kind == "param"}
+                    s1 = {z.label() for z in b.prov.op_src(c.args[1]) if z.kind == "param"}
+                    ctx.check({frozenset(s0), frozenset(s1)} == {frozenset({"param:self"}), frozenset({"param:" + b.param_name(2)})} or
+                              (any(l.startswith("param:self") for l in s0) and s1 == {"param:" + b.param_name(2)}), rule, ["Filter::is_match", "compares-filter-with-path"],
+                              "== compares %s with %s" % (sorted(s0), sorted(s1)), c.line())
+
+
 def r13_1(ctx, prog, crate):
     for fn, want in (("include", 1), ("exclude", 0)):
         b = prog.body("config::filter::FilterSet::" + fn, crate)
@@ -36,31 +66,7 @@ def r13_1(ctx, prog, crate):
             {z.label() for z in b.prov.op_src(cs[0].args[2])} == {"param:" + b.param_name(3)} and \
             {z.label() for z in b.prov.op_src(cs[0].args[0])} == {"param:self.filters"}
         ctx.check(ok, "R13.1", ["insert_filter", "forwards"], "insert_filter does not forward (filter, inclusive) to self.filters.insert", b.where(0))
-    # Filter::is_match
-    b = prog.body("config::filter::Filter::is_match", crate)
-    names = tables.variant_names(prog, "config::filter::Filter", crate)
-    if ctx.anchor("R13.1", "Filter::is_match + ADT", (1 if b else 0) + (1 if names else 0), 2):
-        ctx.saw(b)
-        sws = tables.discr_switches(b)
-        if ctx.check(len(sws) == 1, "R13.1", ["Filter::is_match", "match"], "not a single match on self", b.where(0)):
-            bi, t, _ = sws[0]
-            arms, otherwise = tables.arm_targets(t)
-            tab = {}
-            for nm in names:
-                tgt = arms.get(names.index(nm), otherwise)
-                blocks = tables.exclusive_blocks(b, tgt, [y for y in list(arms.values()) + [otherwise] if y != tgt])
-                tab[nm] = sorted({b.call_at(x).callee for x in blocks if b.call_at(x) is not None})
-            ok_r = any(n.endswith("Regex::is_match") for n in tab.get("Regex", [])) and not any("eq" == n.rsplit("::", 1)[-1] for n in tab.get("Regex", []))
-            ok_e = any(n.rsplit("::", 1)[-1] == "eq" for n in tab.get("Exact", [])) and not any("Regex" in n or n.endswith(("contains", "starts_with", "ends_with", "find")) for n in tab.get("Exact", []))
-            ctx.check(ok_r and ok_e, "R13.1", ["Filter::is_match", "regex-search-vs-equality"], "Filter::is_match arms call %s" % tab, b.where(bi), detail=tab)
-            # both sides of == are the filter text and the candidate path
-            for c in b.live_calls():
-                if c.callee.rsplit("::", 1)[-1] == "eq":
-                    s0 = {z.label() for z in b.prov.op_src(c.args[0]) if z.kind == "param"}
-                    s1 = {z.label() for z in b.prov.op_src(c.args[1]) if z.kind == "param"}
-                    ctx.check({frozenset(s0), frozenset(s1)} == {frozenset({"param:self"}), frozenset({"param:" + b.param_name(2)})} or
-                              (any(l.startswith("param:self") for l in s0) and s1 == {"param:" + b.param_name(2)}), "R13.1", ["Filter::is_match", "compares-filter-with-path"],
-                              "== compares %s with %s" % (sorted(s0), sorted(s1)), c.line())
+    filter_is_match_rule(ctx, "R13.1", prog, crate)
     # CLI wiring
     b = prog.body("divan::Divan::config_with_args", crate)
     if ctx.anchor("R13.1", "Divan::config_with_args", 1 if b else 0, 1):
@@ -118,7 +124,7 @@ def r13_2(ctx, prog, crate):
     si = [c for c in b.live_calls() if c.callee == "util::split_vec::SplitVec::split_index"]
     if not ctx.check(len(pos) == 1 and len(al) == 1 and len(si) == 1, "R13.2", ["is_match", "shape"], "position x%d all x%d split_index x%d" % (len(pos), len(al), len(si)), b.where(0)):
         return
-    ctx.check(any(z.kind == "call" and z.b == al[0].bb for z in b.prov.op_src(pos[0].args[0])), "R13.2", ["is_match", "searches-all-filters"],
+    ctx.check(any(z.kind == "call" and z.b == al[0].bb for z in b.prov.op_src(pos[0].args[0])) and nophi(b.prov.op_src(pos[0].args[0])), "R13.2", ["is_match", "searches-all-filters"],
               "position() does not search filters.all()", pos[0].line())
     sw = tables.switch_on_call_result(b, pos[0])
     if not ctx.check(sw is not None, "R13.2", ["is_match", "match-on-position"], "no match on the position() result", pos[0].line()):
